@@ -173,6 +173,15 @@ T = {
  "C15-8": ("C15", "011957e", "key-value or document store, several cached heads, positive limit that trims entries fetched for the first head", ["C15"], "VIOLATION (native replay) by VerifC15View"),
  "C19-8": ("C19", "011957e", "LoadFromSnapshot of an older snapshot on an open store that is ahead of it", ["C19"], "VIOLATION (native replay) by VerifC19History"),
  "C20-10": ("C20", "011957e", "Close, then Connect, then Send or Close on the same pairwise channel object", ["C20"], "VIOLATION (deadlock) by VerifC20AfterClose"),
+ # round 17 (base 011957e)
+ "C02-9": ("C02", "011957e", "a writer with unannounced writes restarts; the join triggered by its re-open is handled before Load", ["C02"], "VIOLATION (native replay) by VerifC02Heal"),
+ "C05-10": ("C05", "011957e", "one *CreateDBOptions value used for two databases of an instance, a write to the second, a restart", ["C05", "C09"], "VIOLATION (native replay) by VerifC05SharedOptions"),
+ "C09-10": ("C09", "011957e", "two databases with the same manifest root and different paths on one instance, a direct-channel head exchange for one of them", ["C09"], "VIOLATION by VerifC09SameRoot"),
+ "C10-9": ("C10", "011957e", "a valid log buffered by the replicator while the last fetch of the burst fails", ["C10"], "VIOLATION (native replay) by VerifC10Mixed (unfetchable-ancestor)"),
+ "C12-10": ("C12", "011957e", "an ill-typed topic message carrying a head with next / refs, then a genuine announcement whose head has none", ["C12"], "VIOLATION by VerifSysMalformed (ill-typed-with-heads)"),
+ "C14-10": ("C14", "011957e", "two calls on one instance with write lists that are permutations of each other", ["C14"], "VIOLATION (native replay) by VerifC14Injective / VerifC14Reuse"),
+ "C16-10": ("C16", "011957e", "a fetched log containing an entry of another database (filtered before the join)", ["C16"], "VIOLATION (native replay) by VerifC10Mixed (event-content oracle)"),
+ "C18-10": ("C18", "011957e", "a peer on the database topic that never appears on the pairwise topic; the store is closed while its head exchange waits", ["C18"], "VIOLATION (virtual time) by VerifC18ConnectCancelled"),
 }
 for seed, (prop, base, needs, by, note) in T.items():
     d = os.path.join(V, "seeded", seed)
